@@ -91,6 +91,11 @@ def oracle(ck, tier, deep):
         sig = dict(site="basex")
         rep = dict(n=n, dr=dr, X=X.tolist())
         try:
+            # an earlier call with another basis width (same n, reg, correction, dr) must not leak into this one
+            prior = ["forward", "inverse", None][int(rng.integers(0, 3))]
+            if prior:
+                quiet(abel.basex.basex_transform, X, sigma=2.0, reg=0.0, correction=False, direction=prior, dr=dr, basis_dir=None, verbose=False)
+            rep["prior_sigma2_call"] = prior
             F = f(np.eye(n), "forward")
             cond = np.linalg.cond(F)
             e1 = np.abs(f(f(X, "forward"), "inverse") - X).max()
@@ -153,6 +158,27 @@ def oracle(ck, tier, deep):
                         break
             except Exception as e:
                 ck.violation(dict(sig, clause="exception"), rep, f"{type(e).__name__}: {e}")
+            # the pair as a later session finds it on disk, when the basis file was written by a masked inverse run
+            if R <= 30:
+                import shutil
+                bdir = tempfile.mkdtemp(prefix="c03r_", dir=os.environ.get("VERIF_SCRATCH"))
+                try:
+                    abel.rbasex.cache_cleanup()
+                    quiet(abel.rbasex.rbasex_transform, img, order=order, odd=odd, weights=W, basis_dir=bdir)
+                    abel.rbasex.cache_cleanup()
+                    Ai4 = [a.copy() for a in quiet(abel.rbasex.get_bs_cached, R, order, odd, "inverse", basis_dir=bdir)]
+                    ck.count(("S.rbasex-from-disk", order, odd, R), suite="S.exact")
+                    for k, (b, b4) in enumerate(zip(Ai, Ai4)):
+                        if b.shape != b4.shape or np.abs(b - b4).max() > 1e-13 * np.abs(b).max():
+                            ck.violation(dict(sig, clause="operator-product-from-disk"), dict(rep, term=k),
+                                         f"the inverse radial operator of term {k} loaded from a basis file written by a masked run differs "
+                                         f"from the inverse of the forward one by {np.abs(b - b4).max():.3g}")
+                            break
+                except Exception as e:
+                    ck.violation(dict(sig, clause="exception"), dict(rep, where="from-disk"), f"{type(e).__name__}: {e}")
+                finally:
+                    abel.rbasex.cache_cleanup()
+                    shutil.rmtree(bdir, ignore_errors=True)
     # ---- approximate class on smooth profiles
     for n in ([51, 101] if not deep else [51, 101, 201, 301]):
         r = np.arange(n)
